@@ -790,3 +790,53 @@ def to_repo(t, P):
     if k == 'es': return P.ESubst(to_repo(t[1], P), P.EVar(t[2]), to_repo(t[3], P))
     if k == 'ss': return P.SSubst(to_repo(t[1], P), P.SVar(t[2]), to_repo(t[3], P))
     raise TypeError(k)
+
+
+# ------------------------------------------------ definite (syntactic) capture, for nameful implementations
+def syn_free_e(t, x) -> bool:
+    """x occurs free as an actual EVar node, looking only through concrete constructors"""
+    k = t[0]
+    if k == 'ev':
+        return t[1] == x
+    if k in ('im', 'ap'):
+        return syn_free_e(t[1], x) or syn_free_e(t[2], x)
+    if k == 'ex':
+        return t[1] != x and syn_free_e(t[2], x)
+    if k == 'mu':
+        return syn_free_e(t[2], x)
+    return False
+
+
+def syn_free_s(t, X) -> bool:
+    k = t[0]
+    if k == 'sv':
+        return t[1] == X
+    if k in ('im', 'ap'):
+        return syn_free_s(t[1], X) or syn_free_s(t[2], X)
+    if k == 'mu':
+        return t[1] != X and syn_free_s(t[2], X)
+    if k == 'ex':
+        return syn_free_s(t[2], X)
+    return False
+
+
+def definite_capture(t, var, plug, kind):
+    """'ex' / 'mu' if replacing the free occurrences of var in t by plug certainly moves a free
+    variable of plug under a binder of that kind (no metavariable involved in the judgement), else None."""
+    occ = syn_free_e if kind == 'e' else syn_free_s
+    k = t[0]
+    if k in ('im', 'ap'):
+        return definite_capture(t[1], var, plug, kind) or definite_capture(t[2], var, plug, kind)
+    if k == 'ex':
+        if kind == 'e' and t[1] == var:
+            return None
+        if syn_free_e(plug, t[1]) and occ(t[2], var):
+            return 'ex'
+        return definite_capture(t[2], var, plug, kind)
+    if k == 'mu':
+        if kind == 's' and t[1] == var:
+            return None
+        if syn_free_s(plug, t[1]) and occ(t[2], var):
+            return 'mu'
+        return definite_capture(t[2], var, plug, kind)
+    return None
